@@ -2,6 +2,7 @@ import Driver.Codec
 import Std.Data.HashMap
 import Ucfg.Spec.C20
 import Ucfg.Spec.C17
+import Ucfg.Spec.C01
 /-
   ucfgdrv: reads one protocol case per line on stdin, runs the Lean model's
   executable definitions on it and prints one JSON result line.
@@ -202,11 +203,115 @@ def runJson (std : Stdlib) (c : Json) : R (Json × Option Json × Option String)
         else pure (some (failOracle "parse.Value returned different data than the JSON document denotes"))
   pure (model, oracle, kf)
 
+/-- the plain tree of an input value (none when the value is not plain data) -/
+partial def specTree : GoData → Option Spec.C01.T
+  | .nil => some (.leaf .nil)
+  | .bool b => some (.leaf (.bool b))
+  | .int i => some (.leaf (if i > 0 then .uint i.toNat else .int i))
+  | .uint n => some (.leaf (.uint n))
+  | .float f => some (.leaf (.float f))
+  | .str s => some (.leaf (.str s))
+  | .dur t => some (.leaf (.str t))
+  | .regex t => some (.leaf (.str t))
+  | .list l => do
+    let xs ← l.mapM specTree
+    pure (.node [] xs)
+  | .map m => do
+    let xs ← m.mapM (fun (k, v) => do pure (k, (← specTree v)))
+    pure (.node xs [])
+  | .strct fs => do
+    let xs ← fs.mapM (fun (g, tag, v) => do
+      let (name, topts) := parseTags tag
+      if topts.squash || topts.ignore || !exported g then none
+      else pure (fieldName name g, (← specTree v)))
+    pure (.node xs [])
+  | .cfg v => valTree v
+  | _ => none
+where
+  valTree : Val → Option Spec.C01.T
+    | .prim p => some (.leaf p.toData)
+    | .dyn _ _ => none
+    | .sub d a _ _ => do
+      let xs ← d.mapM (fun (k, v) => do pure (k, (← valTree v)))
+      let ys ← a.mapM valTree
+      pure (.node xs ys)
+
+/-- the (path, policy) list and global policy an option list denotes (C16 spec side):
+names are split with the separator in force when the option is applied -/
+def fieldSpecs (j : Json) : R (Handling × List (List String × Handling)) := do
+  let arr ← j.getArr?
+  let (g, fs, _) ← arr.toList.foldlM (fun (st : Handling × List (List String × Handling) × String) (e : Json) => do
+    let (g, fs, sep) := st
+    let name ← strField e "o"
+    match name with
+    | "PathSep" => pure (g, fs, (← strField e "v"))
+    | "Replace" => pure (Handling.replace, fs, sep)
+    | "ReplaceArr" => pure (Handling.arrReplace, fs, sep)
+    | "Append" => pure (Handling.append, fs, sep)
+    | "Prepend" => pure (Handling.prepend, fs, sep)
+    | "FieldMerge" | "FieldReplace" | "FieldAppend" | "FieldPrepend" =>
+      let names ← (← (← e.getObjVal? "v").getArr?).toList.mapM (·.getStr?)
+      let h := match name with
+        | "FieldMerge" => Handling.merge | "FieldReplace" => .replace
+        | "FieldAppend" => .append | _ => .prepend
+      let paths := names.map (fun n =>
+        let n' := if n.endsWith ".*" then (n.dropEnd 2).toString else n
+        ((if sep == "" then [n'] else splitOn n' sep), h))
+      pure (g, fs ++ paths, sep)
+    | _ => pure (g, fs, sep)) (Handling.dflt, [], "")
+  pure (g, fs)
+
+/-- C01/C16 "merge": oracle = the merge specification on plain trees -/
+def mergeOracle (c : Json) : R (Option Json) := do
+  match optField c "impl" with
+  | none => pure none
+  | some impl => do
+    let a ← parseGoData ((optField c "a").getD .null)
+    let steps := match optField c "steps" with
+      | some (.arr s) => s.toList
+      | _ => []
+    match specTree a with
+    | none => pure none
+    | some ta =>
+      -- A itself is created by merging into an empty config under optsA
+      let (ga, fsa) ← fieldSpecs ((optField c "optsA").getD (.arr #[]))
+      let t0 := Spec.C01.merge (Spec.C01.polOf ga fsa) [] (.node [] []) ta
+      let rec go (t : Spec.C01.T) : List Json → R (Option Spec.C01.T)
+        | [] => pure (some t)
+        | s :: rest => do
+          let b ← parseGoData ((optField s "b").getD .null)
+          match b with
+          | .nil => go t rest
+          | _ =>
+            match specTree b with
+            | none => pure none
+            | some tb =>
+              let (g, fs) ← fieldSpecs ((optField s "opts").getD (.arr #[]))
+              go (Spec.C01.merge (Spec.C01.polOf g fs) [] t tb) rest
+      match ← go t0 steps with
+      | none => pure none
+      | some t =>
+        let stage := strFieldD impl "stage" ""
+        if stage != "done" then pure (some (failOracle s!"merge of plain data failed at {stage}"))
+        else
+          match (optField impl "res").bind (optField · "ok") with
+          | none => pure (some (failOracle "the merged config could not be unpacked"))
+          | some okv => do
+            let dict ← dataOfJson (Json.mkObj [("m", (optField okv "dict").getD (.mkObj []))])
+            let arr ← dataOfJson (Json.mkObj [("a", (optField okv "arr").getD (.arr #[]))])
+            let (ed, ea) := match t with
+              | .node d l => (Spec.C01.render (.node d []), Spec.C01.render (.node [] l))
+              | .leaf _ => (Data.nil, Data.nil)
+            if dataNumEq (Spec.C01.canon dict) (Spec.C01.canon ed) && dataNumEq (Spec.C01.canon arr) (Spec.C01.canon ea) then
+              pure (some okOracle)
+            else pure (some (failOracle "merged data differs from the merge specification"))
+
 def runFull (std : Stdlib) (c : Json) : R (Json × Option Json × Option String) := do
   let k ← strField c "k"
   match k with
   | "key" => do let (m, o) ← runKey c; pure (m, o, none)
   | "json" => runJson std c
+  | "merge" => do pure ((← runMerge c), (← mergeOracle c), none)
   | _ => do pure ((← runCase std c), none, none)
 
 partial def loop (std : Stdlib) (h : IO.FS.Stream) (out : IO.FS.Stream) : IO Unit := do
